@@ -1158,4 +1158,58 @@ theorem fwd_parseInputObjectTypeExtension {dk : Kind} (hdk : DescKind dk) (d : D
   rintro y b7 ⟨rfl, rfl⟩
   exact ⟨by simp [Definition.erasePos, hds, hfs, hk, hparts.1, hparts.2.1, hparts.2.2.1, hdesc], hσ⟩
 
+/-! ### dispatch on the keyword -/
+
+theorem keyword_value (k : DefKind) : (DefKind.keyword k).kind = .name ∧
+    (DefKind.keyword k).value = (match k with
+      | .scalar => kwScalar | .object => kwType | .interface => kwInterface | .union => kwUnion | .enum => kwEnum
+      | .inputObject => kwInput) := by
+  cases k <;> exact ⟨rfl, rfl⟩
+
+theorem fwd_typeSystemDefinition {dk : Kind} (hdk : DescKind dk) (d : Definition) (hok : DefOK d) (n : Nat) (a : AS) (σ' : Stream)
+    (hs : Starts a.σ (DefKind.keyword d.kind :: printDefBodyK dk d) σ') (hfol : FolItem σ') :
+    Fwd (parseTypeSystemDefinition n d.desc) a
+      (fun y a' => y.erasePos = ({ d with builtIn := false } : Definition).erasePos ∧ a'.σ = σ') := by
+  have hhead := hs.head
+  have hk : a.σ.head.kind = .name := by rw [← show (Tok.ofToken a.σ.head).kind = a.σ.head.kind from rfl, hhead]; exact (keyword_value d.kind).1
+  have hv : a.σ.head.value = (DefKind.keyword d.kind).value := by
+    rw [← show (Tok.ofToken a.σ.head).value = a.σ.head.value from rfl, hhead]
+  unfold parseTypeSystemDefinition
+  refine Fwd.bind (fwd_peek a) ?_
+  rintro tok a1 ⟨rfl, rfl⟩
+  refine Fwd.ite_neg (by simp [hk]) ?_
+  rw [hv]
+  cases hkind : d.kind with
+  | scalar =>
+    rw [hkind] at hs
+    refine Fwd.ite_pos rfl ?_
+    exact (fwd_parseScalarTypeDefinition hdk d hkind hok n { pk := true, σ := a.σ, cnt := a.cnt } σ' (by simpa [hkind] using hs) hfol).mono
+      fun y a' h => by rw [hkind] at h; exact h
+  | object =>
+    rw [hkind] at hs
+    refine Fwd.ite_neg (by decide) (Fwd.ite_pos rfl ?_)
+    exact (fwd_parseObjectTypeDefinition hdk d hkind hok n { pk := true, σ := a.σ, cnt := a.cnt } σ' (by simpa [hkind] using hs) hfol).mono
+      fun y a' h => by rw [hkind] at h; exact h
+  | interface =>
+    rw [hkind] at hs
+    refine Fwd.ite_neg (by decide) (Fwd.ite_neg (by decide) (Fwd.ite_pos rfl ?_))
+    exact (fwd_parseInterfaceTypeDefinition hdk d hkind hok n { pk := true, σ := a.σ, cnt := a.cnt } σ' (by simpa [hkind] using hs) hfol).mono
+      fun y a' h => by rw [hkind] at h; exact h
+  | union =>
+    rw [hkind] at hs
+    refine Fwd.ite_neg (by decide) (Fwd.ite_neg (by decide) (Fwd.ite_neg (by decide) (Fwd.ite_pos rfl ?_)))
+    exact (fwd_parseUnionTypeDefinition hdk d hkind hok n { pk := true, σ := a.σ, cnt := a.cnt } σ' (by simpa [hkind] using hs) hfol).mono
+      fun y a' h => by rw [hkind] at h; exact h
+  | «enum» =>
+    rw [hkind] at hs
+    refine Fwd.ite_neg (by decide) (Fwd.ite_neg (by decide) (Fwd.ite_neg (by decide) (Fwd.ite_neg (by decide) (Fwd.ite_pos rfl ?_))))
+    exact (fwd_parseEnumTypeDefinition hdk d hkind hok n { pk := true, σ := a.σ, cnt := a.cnt } σ' (by simpa [hkind] using hs) hfol).mono
+      fun y a' h => by rw [hkind] at h; exact h
+  | inputObject =>
+    rw [hkind] at hs
+    refine Fwd.ite_neg (by decide) (Fwd.ite_neg (by decide) (Fwd.ite_neg (by decide) (Fwd.ite_neg (by decide)
+      (Fwd.ite_neg (by decide) (Fwd.ite_pos rfl ?_)))))
+    exact (fwd_parseInputObjectTypeDefinition hdk d hkind hok n { pk := true, σ := a.σ, cnt := a.cnt } σ' (by simpa [hkind] using hs) hfol).mono
+      fun y a' h => by rw [hkind] at h; exact h
+
 end Gql.Parser
